@@ -107,6 +107,8 @@ def make_template(rng, name, nf=None):
         def s(v):
             state["calls"][k] += 1
             if k in state["failing"]:
+                if state.get("shared_exc") is not None:
+                    raise state["shared_exc"]  # the very same exception object every time (a stored error re-raised)
                 raise state["exc_class"]("serializer of %s failed" % k)
             return f(v)
         return s
@@ -162,6 +164,15 @@ def one(seed, i, has_globals, gfields, res, templates=()):
     # any Exception subclass may come out of a serializer, including ones that iteration protocols treat specially
     state["exc_class"] = rng.choice([excs.SerFault, StopIteration, StopAsyncIteration, KeyError, IndexError, ValueError, TypeError, RuntimeError,
                                      AssertionError, AttributeError, LookupError, ArithmeticError, excs.BadStr, RecursionError, NotImplementedError])
+    state["shared_exc"] = None
+    if rng.random() < 0.3:
+        # a stored exception object (a failed Future's result(), a pre-built module-level error) raised again and again
+        state["exc_class"] = excs.SerFault
+        state["shared_exc"] = tpl.setdefault("shared_exc_obj", excs.SerFault("stored error of %s" % tpl["name"]))
+        if failing:
+            tpl["shared_raised"] = tpl.get("shared_raised", 0) + 1
+            if tpl["shared_raised"] > 1:
+                res["counters"]["same_exception_object_raised_again"] = res["counters"].get("same_exception_object_raised_again", 0) + 1
     values = {k: (rng.choice([0, 1, True, False, 7, -3]) if (sers[k] in ("tofloat", "tobool", "toint") and rng.random() < 0.7)
                   else gen.gen_value(rng, rng.choice([0, 1, 2]))) for k in keys}
     explicit_action = False
